@@ -6,7 +6,7 @@ CLAIMED = {
     "C01": dict(
         category="exploration",
         technique="bounded-exhaustive enumeration of hostile inputs (complete field domains, all lines of <= 2 bytes, all digit counts), explicit-state history search to depth 3/4 and the full 1152-set option product, executed on the real reader thread in a release-like and an overflow-checked build plus the real release/dev CLI binaries",
-        text="Every value of each frame field in turn (quick: low 8 bits + single bits; thorough: full domains), every DF at both lengths, every line of 0-2 arbitrary bytes, every digit count 0..64, 70 KiB lines and byte-class interleavings are fed, as first frame and as update, under {default,-U,-R,-U -R}, followed by a well-formed sentinel line; histories over a 30-line hostile/benign alphabet are explored to depth 3 (4); all 1152 option sets run on a mixed stream with stdout captured; the hostile file, the bundled recordings and a stride of the option product run on the real release and dev binaries. The verdict is join()==Ok, termination within the watchdog, and the sentinel row present, in both arithmetic profiles.",
+        text="Every value of each frame field in turn (quick: low 8 bits + single bits; thorough: full domains), every DF at both lengths, every line of 0-2 arbitrary bytes, every digit count 0..64, 70 KiB lines and byte-class interleavings are fed, as first frame and as update, under {default,-U,-R,-U -R}, followed by a well-formed sentinel line; histories over a 30-line hostile/benign alphabet are explored to depth 3 (4); all 1152 option sets run on a mixed stream with stdout captured; an aircraft that keeps being heard while its position, track and heading grow 159 s .. 4 months old is drawn after every frame (timed run through a FIFO with the harness moving the clock, 16 option sets); the hostile file, the bundled recordings and a stride of the option product run on the real release and dev binaries. The verdict is join()==Ok, termination within the watchdog, and the sentinel row present, in both arithmetic profiles.",
         note="Trusted: the watchdog (20 s on the monotonic clock) as the definition of 'wedge'. Field products (two hostile fields at once) beyond the listed ones and option values outside {-u -1,0,3; -d 1,60} are not covered.",
         design="DESIGN.md §5 C01", engine="E1 sweep + E2 explorer + CLI seam"),
     "C07": dict(
@@ -18,61 +18,61 @@ CLAIMED = {
     "C13": dict(
         category="fault_enumeration",
         technique="deviation-bounded fault enumeration: all valid streams up to length 3/4 over 8 frames x all placements of d = 0,1,2(,3) junk lines from a 16-symbol alphabet, file source and scripted TCP peer, on the real reader thread; oracle = table equality with the clean stream",
-        text="Valid streams (all sequences up to length 3, 4 in thorough, over 8 frames of two aircraft, plus three recorded excerpts) are perturbed by inserting junk lines (empty, CR, wrong digit counts, truncated frame, text, NUL, invalid UTF-8 of four kinds, 70 KiB lines, bad-parity frame) at every combination of positions with d = 0, 1, 2 deviations (3 in thorough); the table must equal the clean stream's table bit for bit and the reader must end Ok; a 26-frame stream under -d 0 (two sweeps) checks that junk does not shift the sweep cadence, junk lines of exactly / just below / just above buffer sizes (4 KiB..2 MiB, LF and CR LF) are inserted at every position, and over-long junk lines whose tail behind every 2^k boundary is itself a well-formed frame must not be read as that frame. The TCP source is exercised with a scripted loopback peer for streams up to length 2 with d <= 1.",
+        text="Valid streams (all sequences up to length 3, 4 in thorough, over 8 frames of two aircraft, plus three recorded excerpts) are perturbed by inserting junk lines (empty, CR, wrong digit counts, truncated frame, text, NUL, invalid UTF-8 of four kinds, 70 KiB lines, bad-parity frame) at every combination of positions with d = 0, 1, 2 deviations (3 in thorough); the table must equal the clean stream's table bit for bit and the reader must end Ok; a 26-frame stream under -d 0 (two sweeps) checks that junk does not shift the sweep cadence, junk lines of exactly / just below / just above buffer sizes (4 KiB..2 MiB, LF and CR LF) are inserted at every position, and over-long junk lines whose tail behind every 2^k boundary is itself a well-formed frame must not be read as that frame; runs of 12 .. 65,537 (thorough 300,000) identical unusable lines between accepted frames change nothing. The TCP source is exercised with a scripted loopback peer for streams up to length 2 with d <= 1.",
         note="Trusted: frozen clock (so equal tables include equal time stamps). Junk outside the 16-symbol alphabet and more than 2 (3) insertions are not covered.",
         design="DESIGN.md §5 C13", engine="E3 fault enumeration"),
     "C14": dict(
         category="exploration",
         technique="bounded-exhaustive enumeration of all 32 -i subsets (3 spellings) x ~220 row states covering every column blank/min/max/typical/negative/fractional, rendered by the real Planes::print and the real CLI, against an independent column/cell oracle",
-        text="For every subset of the five column groups and every row state of a catalogue that puts each printable field through blank, minimum, largest-fitting, typical, negative and fractional values (with the other fields all blank and all filled), the real print routine is run with stdout captured; the header must list exactly the groups requested, row/header/separator must have equal display width whenever all values fit, and cutting the row at the header's column boundaries must give, per column, that parameter's value (numbers parsed back, right-aligned; text exact, left-aligned; blank when unknown). Tables reached by frames are checked the same way through the real release CLI with a frozen clock, under all three spellings of -i; the catalogue includes the emergency squawks 7500/7600/7700, and rows wider than the header (every multi-byte source marker at the cut, singly and in pairs) must print without ending the reader.",
+        text="For every subset of the five column groups and every row state of a catalogue that puts each printable field through blank, minimum, largest-fitting, typical, negative and fractional values (with the other fields all blank and all filled), the real print routine is run with stdout captured; the header must list exactly the groups requested, row/header/separator must have equal display width whenever all values fit, and cutting the row at the header's column boundaries must give, per column, that parameter's value (numbers parsed back, right-aligned; text exact, left-aligned; blank when unknown). Tables reached by frames are checked the same way through the real release CLI with a frozen clock, under all three spellings of -i; the catalogue includes the emergency squawks 7500/7600/7700, and rows wider than the header (every multi-byte source marker at the cut, singly and in pairs) must print without ending the reader; position / track / heading ages at and beyond the 160 s wrap of the one-digit age markers, and the age and last-contact states under four other epochs.",
         note="Trusted: the independent column list per -i letter. One-character source markers in separator positions are not judged. Values that do not fit their column are excluded from the width rule (as stated).",
         design="DESIGN.md §5 C14", engine="E4 render + CLI seam"),
     "C15": dict(
         category="exploration",
         technique="bounded-exhaustive enumeration of all tables of 1..4(5) rows over 6 key-value classes (incl. blanks, ties, same-integer floats) x all -o strings of length <= 2(3) over 12 key letters, printed by the real Planes::print, permutation and monotonicity oracle",
-        text="Every table of up to 4 rows (5 thorough) whose sort-key field takes every combination of {blank, low, mid, tie, same-integer neighbour, high} is printed under every -o string up to length 2 (3 thorough) over the twelve key letters (plus '', 'x', 'sx'; as one -o and as repeated -o): the address column must be a permutation of the table, the last recognised key must be monotone over the rows where it is known, and without a recognised key the rows must be in ascending address order; emergency squawks are part of the alphabet; consecutive prints use different address sets, and three 40-frame streams drawn after every frame must list, at every refresh, exactly the table of that moment.",
+        text="Every table of up to 4 rows (5 thorough) whose sort-key field takes every combination of {blank, low, mid, tie, same-integer neighbour, high} is printed under every -o string up to length 2 (3 thorough) over the twelve key letters (plus '', 'x', 'sx'; as one -o and as repeated -o): the address column must be a permutation of the table, the last recognised key must be monotone over the rows where it is known, and without a recognised key the rows must be in ascending address order; emergency squawks are part of the alphabet; the real-valued keys (latitude, longitude, distance) are also given fine-scale neighbours (same displayed tenth, seventh decimal, either side of an integer); consecutive prints use different address sets, and three 40-frame streams drawn after every frame must list, at every refresh, exactly the table of that moment.",
         note="Trusted: direction is judged only where the statement gives it (s, a ascending, A descending); v/V, N/S, W/E, d/D, c may be monotone either way.",
         design="DESIGN.md §5 C15", engine="E4 render"),
     "C18": dict(
         category="fault_enumeration",
         technique="fault-sequence enumeration: every script of length <= 4 (5) over seven TCP peer behaviours (incl. a connection that stays healthy for 6 s of virtual time and long non-UTF-8 junk), plus connections that stay open and silent beyond every socket time-out the reader sets, run against the real reader thread with a scripted loopback peer, gated sleeps, a virtual clock and compressed socket time-outs, oracle = liveness, one 5 s pause per failed attempt, final table equal to the file source's",
-        text="Every sequence up to length 4 (2,801 scripts; 5 in thorough: 19,608) over {refuse, accept+close, accept+frames+close, accept+partial line+reset, accept+junk+close, accept+frames+healthy for 6 s+close, accept+long non-UTF-8 junk+close}, followed by a healthy connection, is played by a scripted loopback peer against the real TCP reader; the interposed sleep records every pause and blocks until the script releases it, so each attempt is a sequenced event. The reader must stay alive, pause exactly once for about 5 s after each failed attempt, and end with the table the file source produces from the same lines (every aircraft learned earlier still present); the partial line is varied over all 27 prefix lengths; nine scripts really pause 1.3-3.6 s in the middle of a line (also under -u 1 / -u 0); 24 scripts keep a healthy connection silent for 1.5 x the longest socket time-out the reader installed (time-outs are recorded and compressed 100:1 by the interposed setsockopt), at a line boundary and mid-line, fresh and after each kind of fault, and then continue on the same connection; every script up to length 2 is repeated under -d 0, -d 1, -U -R and with the table drawn after every frame. Thorough repeats the length-1 scripts against the real CLI with real pauses and two silent-connection scripts with 35 s of real silence and uncompressed time-outs.",
+        text="Every sequence up to length 4 (2,801 scripts; 5 in thorough: 19,608) over {refuse, accept+close, accept+frames+close, accept+partial line+reset, accept+junk+close, accept+frames+healthy for 6 s+close, accept+long non-UTF-8 junk+close}, followed by a healthy connection, is played by a scripted loopback peer against the real TCP reader; the interposed sleep records every pause and blocks until the script releases it, so each attempt is a sequenced event. The reader must stay alive, pause exactly once for about 5 s after each failed attempt, and end with the table the file source produces from the same lines (every aircraft learned earlier still present); the partial line is varied over all 27 prefix lengths; nine scripts really pause 1.3-3.6 s in the middle of a line (also under -u 1 / -u 0); 24 scripts keep a healthy connection silent for 1.5 x the longest socket time-out the reader installed (time-outs are recorded and compressed 100:1 by the interposed setsockopt), at a line boundary and mid-line, fresh and after each kind of fault, and then continue on the same connection; every script up to length 2 is repeated under -d 0, -d 1, -U -R, with the table drawn after every frame, and under two other epochs (year end, 32-bit time_t wrap). Thorough repeats the length-1 scripts against the real CLI with real pauses and two silent-connection scripts with 35 s of real silence and uncompressed time-outs.",
         note="Trusted: clock_gettime, clock_nanosleep and setsockopt interposition (self-tested at start-up); elapsed time inside the TCP loop is virtual and the faked wall clock follows it. Waiting mechanisms other than thread::sleep and socket time-outs (poll/epoll timers, a watchdog thread on a condition variable) would only be seen by the real-time scripts. Real network timing below the granularity connect/accept/send/close/reset is not explored; a partial line may or may not reach the reader before the reset (both admitted).",
         design="DESIGN.md §5 C18", engine="E3 fault enumeration"),
     "C10": dict(
         category="model_checking",
-        technique="explicit-state search of the Comm-B gating machine (38 actions, all orders to depth 4/5 x 4 option sets, each transition on the real reader thread) + exhaustive one-field-at-a-time register sweeps, against a reference gate/validity/Doc 9871 decoder",
-        text="Model GATE explores every order of capability reports (DF11 CA 0/3/4/5/7, DF17), BDS 1,7 advertisements (five subsets, one with a reserved bit) and data replies (2,0; 3,0 x3; valid 4,0; 5,0 right/left turn; 6,0 climb/descent; 5,0 with a status bit clear; 4,0 with a reserved bit; a slow 5,0; a 5,0 that is also 6,0-shaped; replies with flight status 5/7), five BDS 1,0 data-link capability reports and an ADS-B velocity squitter for one aircraft plus a bystander, to depth 4 (5 thorough) under {default,-R,-U,-U -R}; on every transition each MB-derived field group may change only if the reference gate of the pre-state and the register's validity allow it and must then equal the reference decoding; plausible registers must be decoded. Continuous-run conformance holds at the leaves. The register sweeps run every value field of 4,0/5,0/6,0 over its whole range around three baselines, a grid of registers valid in both the 5,0 and the 6,0 layout, all 32 status-bit subsets, every reserved bit, BDS 1,7 words, under open and closed gates, on rows created by a DF20 with flight status 5 and after an ADS-B velocity squitter and BDS 1,0 reports (and the full GS x TAS product in thorough); two BDS 1,0 reports differing in any single MB bit (every bit 9..56 outside 10-14, both polarities, 1,7 before or between them) must leave every baseline 4,0/5,0/6,0 register decodable.",
+        technique="explicit-state search of the Comm-B gating machine (40 actions, all orders to depth 4/5 x 4 option sets, each transition on the real reader thread) + exhaustive one-field-at-a-time register sweeps, against a reference gate/validity/Doc 9871 decoder",
+        text="Model GATE explores every order of capability reports (DF11 CA 0/3/4/5/7, DF17), BDS 1,7 advertisements (five subsets, one with a reserved bit) and data replies (2,0; 3,0 x3; valid 4,0; 5,0 right/left turn; 6,0 climb/descent; 5,0 with a status bit clear; 4,0 with a reserved bit; a slow 5,0; a 5,0 that is also 6,0-shaped; replies with flight status 5/7), five BDS 1,0 data-link capability reports, an ADS-B velocity squitter and two DF18 squitters (CF 5 / 2; they never change the recorded capability) for one aircraft plus a bystander, to depth 4 (5 thorough) under {default,-R,-U,-U -R}; on every transition each MB-derived field group may change only if the reference gate of the pre-state and the register's validity allow it and must then equal the reference decoding; plausible registers must be decoded. Continuous-run conformance holds at the leaves. The register sweeps run every value field of 4,0/5,0/6,0 over its whole range around three baselines, a grid of registers valid in both the 5,0 and the 6,0 layout, all 32 status-bit subsets, every reserved bit, BDS 1,7 words, under open and closed gates, on rows created by a DF20 with flight status 5 and after an ADS-B velocity squitter and BDS 1,0 reports (and the full GS x TAS product in thorough); two BDS 1,0 reports differing in any single MB bit (every bit 9..56 outside 10-14, both polarities, 1,7 before or between them) must leave every baseline 4,0/5,0/6,0 register decodable; a register valid in both layouts still decodes as 5,0 after the row has seen an unambiguous 5,0 and an unambiguous 6,0 with nearly the same heading and IAS.",
         note="Trusted: refmodel/bds.rs (layouts of DESIGN App. B). Admissible sets: floor or truncation for signed scaled values; BDS 4,0 mode/source status unconstrained in the only-if direction; lenient branch when weak/strong validity of an earlier register disagree. Products of more than one field away from a baseline are not covered (except GS x TAS).",
         design="DESIGN.md §5 C10", engine="E2 explorer + E1 sweep"),
     "C19": dict(
         category="model_checking",
         technique="lock-step product exploration of model ROW under pairs of option sets (10 presentation variants x 3 bases, depth 2/3; default vs -U on the valid-value sub-alphabet, depth 3/4), every step on the real reader thread; recordings as long histories in-process and through the CLI",
-        text="Each base option set {default,-U,-R} is explored over model ROW and on every transition the same action is applied to the same pre-state under each of ten presentation variants (-i x3, -o x2, -c, -u -1, -u 0, -D, -O, and two draw-every-frame combinations): the resulting tables must be bit-identical (distance excluded for -O). Default and -U are stepped in lock-step from their own states over the valid-value DF4/5/11/17 alphabet with ticks; callsign, altitude, squawk, position, speed, track, vertical rate, category and surveillance status must agree after every step. A 30-frame stream with -d 0 (two sweeps) and the five bundled recordings are run under every pair in-process, and through the release CLI for -c, -M/-l, -D, -o.",
+        text="Each base option set {default,-U,-R} is explored over model ROW and on every transition the same action is applied to the same pre-state under each of ten presentation variants (-i x3, -o x2, -c, -u -1, -u 0, -D, -O, and two draw-every-frame combinations): the resulting tables must be bit-identical (distance excluded for -O). Default and -U are stepped in lock-step from their own states over the valid-value DF4/5/11/17 alphabet with ticks; callsign, altitude, squawk, position, speed, track, vertical rate, category and surveillance status must agree after every step. A 30-frame stream with -d 0 (two sweeps) and the five bundled recordings are run under every pair in-process, and through the release CLI for -c, -M/-l, -D, -o. -u through the real binary with a moving clock: on a timed stream (FIFO input, clock file moved by the harness) the last printed table is the same for -u {-1,0,1,3,6} under each -d {1,5,60,0} x {default,-U}, and the binary prints what the in-process reader prints.",
         note="Trusted: in-process runs apply -O as main() does. -M and -l are only exercised through the CLI seam.",
         design="DESIGN.md §5 C19", engine="E2 explorer (product)"),
     "C03": dict(
         category="exploration",
         technique="complete-domain enumeration of all 2^24 addresses x 9 formats and all weight<=2 payload families on the real get_icao/reader thread vs an independent CRC-24; explicit-state search of model ROW (3 aircraft, depth 3) for row isolation",
-        text="Address recovery is executed for every one of the 2^24 addresses in each of the nine formats (three payloads in thorough) and for every payload of Hamming weight <= 2 (which exercises every bit of the polynomial and shift schedule) and compared with an independent bit-serial CRC-24; a stride of the same families goes through get_message and the reader thread (row key). Row isolation is decided by explicit-state search: every sequence of 80 frames/ticks for three colliding aircraft to depth 3 is executed on the real reader thread and every transition must leave all rows other than the frame's own bit-identical. Back-to-back 'region pair' families (frames equal except in one region) run on fresh threads to expose decoder state that survives between frames. XOR-neighbour isolation: while aircraft A is tracked, a frame of each of 14 formats/registers from A xor d - d every one-byte value in each byte position and the CRC syndrome of every single data bit of a 56- and a 112-bit frame - must create its own row and leave A's row bit-identical (default, -U, -R).",
+        text="Address recovery is executed for every one of the 2^24 addresses in each of the nine formats (three payloads in thorough) and for every payload of Hamming weight <= 2 (which exercises every bit of the polynomial and shift schedule) and compared with an independent bit-serial CRC-24; a stride of the same families goes through get_message and the reader thread (row key). Row isolation is decided by explicit-state search: every sequence of 80 frames/ticks for three colliding aircraft to depth 3 is executed on the real reader thread and every transition must leave all rows other than the frame's own bit-identical. Back-to-back 'region pair' families (frames equal except in one region) run on fresh threads to expose decoder state that survives between frames. XOR-neighbour isolation: while aircraft A is tracked, a frame of each of 14 formats/registers from A xor d - d every one-byte value in each byte position and the CRC syndrome of every single data bit of a 56- and a 112-bit frame - must create its own row and leave A's row bit-identical (default, -U, -R). Address-in-payload: a DF16/17/18/20/21 frame of a third aircraft whose 56-bit payload carries a tracked aircraft's address at every bit offset (10 leading bytes, ACAS ARA/TTI bits, zero/one fill) leaves the other rows bit-identical. Crowded tables: n = 1000 .. 65537 tracked aircraft (around 4096 and 65536), then one frame of a new one - all n rows are still there, bit-identical.",
         note="Trusted: reference CRC-24 and address rule. Interleavings deeper than 3 over the 80-action alphabet are not covered.",
         design="DESIGN.md §5 C03", engine="E1 sweep + E2 explorer"),
     "C08": dict(
         category="model_checking",
         technique="explicit-state search of the even/odd pairing machine (13 actions, depth 5/7, every transition a run of the real reader thread) + bounded-exhaustive lattice of true positions x orders x delays, against a reference CPR decoder and pairing machine",
-        text="A lattice of true positions built to hit every NL transition (+-2e-5..3e-2 deg), zone midpoints, the equator, the antimeridian and both hemispheres is encoded with an independent CPR encoder and fed in both parity orders with every delay around the 10 s limit (9.999/10.000/10.001 s), under default and -U: a decodable pair must show the reference global decode, within 20 m of the truth and with the haversine distance; every other pair must leave the position untouched. The pairing logic over histories (re-pairing old slots, zero fields, zone changes, silences) is explored exhaustively to depth 5 (7 thorough) as model PAIR with the reference slots as history variable.",
+        text="A lattice of true positions built to hit every NL transition (+-2e-5..3e-2 deg), zone midpoints, the equator, the antimeridian and both hemispheres is encoded with an independent CPR encoder and fed in both parity orders with every delay around the 10 s limit (9.999/10.000/10.001 s), under default and -U: a decodable pair must show the reference global decode, within 20 m of the truth and with the haversine distance; every other pair must leave the position untouched. The pairing logic over histories (re-pairing old slots, zero fields, zone changes, silences) is explored exhaustively to depth 5 (7 thorough) as model PAIR with the reference slots as history variable. The midpoint lattice x 13 delays and model PAIR (depth 4/5) are repeated under four other epochs (just after midnight at the end of a year, just after the 32-bit time_t wrap, late on a leap day with a sub-second part, T0 + 0.999999999 s), so that the two frames of a pair lie on different sides of those boundaries.",
         note="Trusted: reference CPR encoder/decoder (round-trip self-test, textbook vector), NL closed formula; latitudes within 1e-6 deg of an NL transition are skipped and counted. Elapsed time is simulated by shifting the public time stamps under a frozen clock.",
         design="DESIGN.md §5 C08", engine="E1 lattice + E2 explorer"),
     "C11": dict(
         category="model_checking",
-        technique="explicit-state breadth-first search over model ROW (26 frames of every supported format per aircraft + ticks; 2 aircraft depth 3/4, 3 aircraft depth 3), each transition executed on the real reader thread, one-step refinement against a reference fold",
-        text="All sequences to depth 3 (quick) / 4 (thorough) over 54 actions for two address-colliding aircraft (and 80 actions for three, thorough) under {default,-U,-R,-U -R} are executed from the empty table, de-duplicated on the canonical table state; on every transition the reference model is applied to the implementation's own pre-state: carried parameters must take the reference value, non-carried ones and all other rows must stay bit-identical, re-feeding the frame must change nothing (probe on every transition), and every tick-free history at the depth bound fed as ONE continuous stream must reach the table the step-by-step exploration reached.",
-        note="Trusted: reference semantics refmodel/sem.rs + bds.rs (admissible sets of DESIGN §4). Sequences longer than the depth bound are not covered.",
+        technique="explicit-state breadth-first search over model ROW (28 frames of every supported format per aircraft + ticks; 2 aircraft depth 3/4, 3 aircraft depth 3) and model AGED (one aircraft, silences of 1/31/59 s, a sweep-forcing burst; from the empty table and from a warm row), each transition executed on the real reader thread, one-step refinement against a reference fold; conformance of the simulated-time transitions with continuous runs of the real reader under a moving virtual clock",
+        text="All sequences to depth 3 (quick) / 4 (thorough) over 54 actions for two address-colliding aircraft (and 80 actions for three, thorough) under {default,-U,-R,-U -R} are executed from the empty table, de-duplicated on the canonical table state; on every transition the reference model is applied to the implementation's own pre-state: carried parameters must take the reference value, non-carried ones and all other rows must stay bit-identical, re-feeding the frame must change nothing (probe on every transition), and every tick-free history at the depth bound fed as ONE continuous stream must reach the table the step-by-step exploration reached. Model AGED (32 actions depth 3/4; reduced 14-action alphabet depth 4/5 behind a warm prefix) adds silences of 1 s / 31 s / 59 s and a burst of twelve frames of a bystander; rows at least delete_after old may be swept, everything else is judged as in ROW, and every history that contains a silence is also fed as ONE stream through a FIFO while the harness moves the virtual wall clock between the lines (timed conformance: time stamps the snapshot does not know age too). REPEAT: for every ordered pair (a, b) of the 28 frames, a x k then b (k = 11, 70, 300) in one run must give the table of a, a, b step by step.",
+        note="Trusted: reference semantics refmodel/sem.rs + bds.rs (admissible sets of DESIGN §4); for timed runs, that a reader blocked in read() on an empty pipe has processed everything written so far (observed through /proc/self/task/*/syscall and FIONREAD). Sequences longer than the depth bound are only covered by the REPEAT family.",
         design="DESIGN.md §5 C11", engine="E2 explorer"),
     "C12": dict(
         category="model_checking",
         technique="explicit-state search of model EXPIRY (160 parameter sets x 7-8 actions incl. burst and ticks at delete_after +-1 ms, depth 6/8) on the real reader thread with the true last-heard ages as history variable",
-        text="For delete_after in {1,5,60,600}, default/-U, ten refreshing formats and with/without -f, every sequence of {frame of A, burst of 12 frames of B (forces the sweep), one frame of B, filtered-out frame, silences of 1 s / d-1 ms / d / d+1 ms} to depth 6 (8 thorough) is executed; after every step: an accepted frame puts its aircraft in the table with age 0, an aircraft heard < d s ago is present, after a burst no aircraft silent >= d s remains, a frame from a swept aircraft yields exactly the row it yields in an empty table, and the size bound holds; twelve parameter sets run with the table drawn after every frame, and the sweep cadence is re-checked in crowded tables (100+ bystander rows) and for rows that carry nothing but an address.",
+        text="For delete_after in {1,5,60,600}, default/-U, ten refreshing formats and with/without -f, every sequence of {frame of A, burst of 12 frames of B (forces the sweep), one frame of B, filtered-out frame, silences of 1 s / d-1 ms / d / d+1 ms} to depth 6 (8 thorough) is executed; after every step: an accepted frame puts its aircraft in the table with age 0, an aircraft heard < d s ago is present, after a burst no aircraft silent >= d s remains, a frame from a swept aircraft yields exactly the row it yields in an empty table, and the size bound holds; twelve parameter sets run with the table drawn after every frame, and the sweep cadence is re-checked in crowded tables (100+ bystander rows) and for rows that carry nothing but an address. Parameter sets with d = 1, 5 are repeated under four other epochs (year end, 32-bit time_t wrap, leap day, sub-second). Through the real binary: a timed stream (FIFO input, clock file moved by the harness) under -d {1,5,60,0} x -u {-1,0,1,3,6} x {default,-U} must print exactly what the in-process reader prints when it is given the same options directly, and the last table must not depend on -u.",
         note="Trusted: time is simulated by shifting every public time stamp under the frozen clock (exact millisecond ages). The per-run sweep counter starts at 0, so 'at most 12 further frames' is checked as a 12-frame burst.",
         design="DESIGN.md §5 C12", engine="E2 explorer"),
     "C05": dict(
@@ -96,7 +96,7 @@ CLAIMED = {
     "C04": dict(
         category="exploration",
         technique="bounded-exhaustive error-pattern enumeration (all 1-/2-bit errors, all bursts up to 12/24 bits with every interior pattern) executed on the real get_message and reader thread, verdict from an independent CRC-24",
-        text="For eight valid base squitters every 1-bit, every 2-bit and every burst error pattern (<=12 bits quick, <=24 thorough, all interior patterns) confined to bits 6..112 is applied, alone and directly after the valid frame on the same thread / in the same stream; the expected verdict is computed with an independent bit-serial CRC-24 (DF11: upper 17 bits), and the real code must agree through get_message and, at table level, leave an empty and a populated table bit-identical. Exhaustive over the stated pattern families.",
+        text="For eight valid base squitters every 1-bit, every 2-bit and every burst error pattern (<=12 bits quick, <=24 thorough, all interior patterns) confined to bits 6..112 is applied, alone and directly after the valid frame on the same thread / in the same stream; the expected verdict is computed with an independent bit-serial CRC-24 (DF11: upper 17 bits), and the real code must agree through get_message and, at table level, leave an empty and a populated table bit-identical - under default and -U and under the options that must not matter for acceptance (-M for the formats under test, -c, -D, -R, a -f list that lets them through). Exhaustive over the stated pattern families.",
         note="Trusted: reference CRC-24 (frames.rs; checked against pinned frames and linearity). Heavier random patterns are not part of the verdict.",
         design="DESIGN.md §5 C04", engine="E1 sweep"),
     "C06": dict(
@@ -108,13 +108,13 @@ CLAIMED = {
     "C16": dict(
         category="model_checking",
         technique="explicit enumeration of all input sequences up to depth 4/5 over a 15-symbol alphabet x 15 filter sets, every prefix observed on the real reader's stdout, against a reference counter fold; CLI trace conformance",
-        text="All sequences of length 4 (5 in thorough) over a 15-symbol alphabet (one accepted frame of each DF, a second aircraft, zero address, bad parity, junk) under 15 filter sets (multi-format lists given in non-ascending order) are run through the real reader thread with --update=-1 -c, so every prefix prints its counter line; each line is compared with a reference fold, refresh counts with accepted filter-passing frames, and the -f table with the table of the filtered sub-stream. On a 30 s old table every rejected or filtered-out line must leave the table bit-identical. All sequences up to length 3 are also run through the real release CLI and compared byte for byte.",
+        text="All sequences of length 4 (5 in thorough) over a 15-symbol alphabet (one accepted frame of each DF, a second aircraft, zero address, bad parity, junk) under 15 filter sets (multi-format lists given in non-ascending order) are run through the real reader thread with --update=-1 -c, so every prefix prints its counter line; each line is compared with a reference fold, refresh counts with accepted filter-passing frames, and the -f table with the table of the filtered sub-stream. A wide alphabet - one accepted frame for EVERY five-bit format value 0..31 and accepted frames in the decorated line forms (12-digit time stamp with and without '@', '*...;', leading blank) - is run as all sequences of length 1 and 2 under every one-format filter. On a 30 s old table every rejected or filtered-out line must leave the table bit-identical. All sequences up to length 3 are also run through the real release CLI and compared byte for byte.",
         note="Trusted: which alphabet symbols are accepted frames is known by construction (frames built with the reference CRC). DF24 counts under its own DF; its address reading is not judged.",
         design="DESIGN.md §5 C16", engine="E2-style sequence enumeration"),
     "C17": dict(
         category="exploration",
         technique="bounded-exhaustive enumeration: complete 2^24 address domain executed on the real constructor and reader thread, compared with an independent allocation table",
-        text="Complete-domain enumeration: every one of the 16,777,216 addresses is pushed through the real Plane constructor, and every block boundary +-1 plus a stride (thorough: every address) through the real reader thread; the registration must also stay put under -U/-R and after frames of every format (DF18 with every CF) for both ends of every block; the verdict is a comparison with an independently transcribed Annex 10 block table. The domain is finite and small, so exhaustive execution decides the property outright.",
+        text="Complete-domain enumeration: every one of the 16,777,216 addresses is pushed through the real Plane constructor, and every block boundary +-1 plus a stride (thorough: every address) through the real reader thread; the registration must also stay put under -U/-R and after frames of every format (DF18 with every CF) for both ends of every block and of every unallocated gap, including identification squitters and BDS 2,0 replies whose callsign looks like a registration mark (G-, D-, EI-, N..., ...) in every category class; the verdict is a comparison with an independently transcribed Annex 10 block table. The domain is finite and small, so exhaustive execution decides the property outright.",
         note="Trusted: the transcription of the Annex 10 blocks in DESIGN App. A (self-checked for disjointness and alignment at start-up).",
         design="DESIGN.md §5 C17, §9",
         engine="E1 sweep",
